@@ -411,9 +411,39 @@ package core
 //@ pred parentOK(d *directive.Directive) := imp(!directive.rootSpec(d.type_), d.Parent != nil && directive.dirOK(d.Parent))
 //@ pred setterFailed(core *JApiCore, c0 *catalog.Catalog, n0 int) := core.catalog == c0 && c0.gFailed > n0
 
+// the description text: trimming and un-indenting (C01: no index leaves its slice)
+//@ extern bytes.ReplaceAll(s, old, new)
+//@   attr pure deterministic nopanic
+//@ extern bytes.TrimLeft(s, cutset)
+//@   attr pure deterministic nopanic
+//@ extern bytes.TrimRight(s, cutset)
+//@   attr pure deterministic nopanic
+//@ extern bytes.TrimSpace(s)
+//@   attr pure deterministic nopanic
+//@ extern bytes.Trim(s, cutset)
+//@   attr pure deterministic nopanic
+//@ extern bytes.TrimPrefix(s, prefix)
+//@   attr pure deterministic nopanic
+//@ extern bytes.Split(s, sep)
+//@   attr deterministic nopanic
+//@   ensures fresh(result.arr) && 0 <= result.off
+//@ extern bytes.Join(s, sep)
+//@   attr pure deterministic nopanic
+//@ extern bytes.HasPrefix(s, prefix)
+//@   attr pure deterministic nopanic
 //@ func description(b)
-//@   attr trusted
+//@   property C01
 //@   modifies nothing
+//@ func descriptionRemoveParentheses(b)
+//@   property C01
+//@   modifies nothing
+//@ func longestWhitespacePrefix(bb)
+//@   property C01
+//@   modifies nothing
+//@ func longestWhitespacePrefix loop 2
+//@   invariant len(prefix) >= 1
+//@ func longestWhitespacePrefix loop 3
+//@   invariant len(prefix) >= 1
 //@ extern strings.Trim(s, cutset)
 //@   attr pure deterministic nopanic
 //@ func PathParameters(path)
@@ -601,3 +631,31 @@ package core
 //@   requires core != nil && core.catalog != nil
 //@   modifies nothing
 //@   ensures[C03,@empty-info] imp(core.catalog.Info != nil && core.catalog.Info.Title == "" && core.catalog.Info.Version == "" && core.catalog.Info.Description == nil, result != nil)
+
+// TAG and ENUM registration before the tree is built (C03)
+//@ func (*JApiCore).collectTag(core, d)
+//@   property C03,C01
+//@   requires handlerPre(core, d) && catalog.catInv(core.catalog)
+//@   modifies anything
+//@   keeps directive.Directive, fs.File
+//@   ensures[C03,@setter-error-reported] imp(setterFailed(core, old(core.catalog), old(core.catalog.gFailed)), result != nil)
+//@   ensures[C03,@missing-parameter] imp(old(!hasParam(d, "TagName")), atKeyword(result, d))
+//@   ensures[C03,C07,@error-at-directive] imp(result != nil, atKeyword(result, d))
+//@ extern github.com/jsightapi/jsight-schema-core/rules/enum.New(name, content)
+//@   attr nopanic
+//@   ensures result != nil
+//@ extern (*github.com/jsightapi/jsight-schema-core/rules/enum.Enum).Check(e)
+//@   attr nopanic
+//@ func jschemaToJAPIError(err, d)
+//@   attr trusted
+//@   requires d != nil
+//@   modifies nothing
+//@   ensures result != nil && (result.File == d.keywordCoords.file || (d.BodyCoords.file != nil && result.File == d.BodyCoords.file))
+//@ func (*JApiCore).buildRule(core, d)
+//@   property C03
+//@   attr assumesafe
+//@   requires handlerPre(core, d) && core.rules != nil && catalog.omUserRulesInv(core.catalog.UserEnums)
+//@   modifies anything
+//@   keeps directive.Directive, fs.File
+//@   ensures[C03,@setter-error-reported] imp(setterFailed(core, old(core.catalog), old(core.catalog.gFailed)), result != nil)
+//@   ensures[C03,C07,@error-in-directive-file] imp(result != nil, errIn(result, d))
